@@ -10,9 +10,10 @@ import problog.eval_nodes as en
 EVENTS = []
 
 
-def _wrapped_eval_define(orig):
+def _wrapped_eval_define(orig, bypass=False):
     def eval_define(self, node, context, target, parent, identifier=None, transform=None, is_root=False,
                     no_cache=False, **kwdargs):
+        n_before = len(EVENTS)
         try:
             if not no_cache:
                 goal = (node.functor, context)
@@ -34,17 +35,22 @@ def _wrapped_eval_define(orig):
                         steps += 1
         except Exception:
             pass
+        if bypass and len(EVENTS) > n_before:
+            # causal test: do not take the cached node of the active goal; the call then reaches the active node
+            # and the engine's ordinary cycle handling
+            no_cache = True
         return orig(self, node=node, context=context, target=target, parent=parent, identifier=identifier,
                     transform=transform, is_root=is_root, no_cache=no_cache, **kwdargs)
     return eval_define
 
 
 @contextlib.contextmanager
-def observe():
-    """with observe() as events: ... ; events is the list of event names seen inside the block."""
+def observe(bypass=False):
+    """with observe() as events: ... ; events is the list of event names seen inside the block.
+    bypass=True additionally makes the observed reads skip the cache (causal test of the known finding)."""
     orig = es.StackBasedEngine.eval_define
     del EVENTS[:]
-    es.StackBasedEngine.eval_define = _wrapped_eval_define(orig)
+    es.StackBasedEngine.eval_define = _wrapped_eval_define(orig, bypass)
     try:
         yield EVENTS
     finally:
